@@ -152,7 +152,8 @@ func vaTmpList() []string {
 	root := os.TempDir()
 	names := []string{}
 	filepath.WalkDir(root, func(p string, d os.DirEntry, err error) error {
-		if err == nil && p != root {
+		// files only (at any depth): a private sub-directory is not a downloaded log, what it holds is
+		if err == nil && p != root && !d.IsDir() {
 			rel, _ := filepath.Rel(root, p)
 			names = append(names, rel)
 		}
